@@ -600,7 +600,7 @@ func checkWrapperCopy(p *Prog, r *Report, kt *kindTable) {
 	})
 	r.decide(sawAttrs && sawRels, "C18.wrapper-copy", "Copy:covers-attrs-and-rels", p.pos(f.Pos()), "both the attributes and the relationships of the source are copied",
 		"Wrapper.Copy does not copy both the attributes and the relationships of its source")
-	r.floor("Set calls in Wrapper.Copy", nSets, 3)
+	r.floor("Set calls in Wrapper.Copy", nSets, 1)
 }
 
 // rangeSource: v is the value variable of `for _, x := range w.Attrs()` / Rels().
